@@ -777,7 +777,7 @@ func (g *PlanGen) DefineSimilar(local byte) {
 	def := ref.Record{IsDef: true, Local: local, Global: old.Global, Arch: old.Arch, Reserved: old.Reserved, HasDev: old.HasDev}
 	def.Fields = append([]ref.FieldDef(nil), old.Fields...)
 	def.Dev = append([]ref.DevDef(nil), old.Dev...)
-	switch rng.Intn(8) {
+	switch rng.Intn(10) {
 	case 0, 1: // developer fields added or removed
 		if def.HasDev && len(def.Dev) > 0 {
 			def.HasDev, def.Dev = false, nil
@@ -787,6 +787,39 @@ func (g *PlanGen) DefineSimilar(local byte) {
 			for k := 1 + rng.Intn(3); k > 0; k-- {
 				def.Dev = append(def.Dev, ref.DevDef{Num: rng.Byte(), Size: byte(1 + rng.Intn(12)), Idx: byte(rng.Intn(3))})
 			}
+			// ... the first of them, every other time, with the very bytes (number, size, index =
+			// base type) that a one-byte field of this message has as a native field
+			if cs := crossable(p, &def); len(cs) > 0 && rng.Chance(1, 2) {
+				def.Dev[0] = cs[rng.Intn(len(cs))]
+			}
+		}
+	case 8, 9:
+		// move one entry across the boundary between the field definitions and the developer
+		// field descriptions, its three bytes unchanged (a developer index is a base type code
+		// on the other side): same bytes in the same order, another definition
+		nativeOK := func(d ref.DevDef) bool {
+			for _, f := range def.Fields {
+				if f.Num == d.Num {
+					return false
+				}
+			}
+			if pf := p.Field(def.Global, d.Num); pf != nil && p.Known[def.Global] {
+				return ref.BaseTypes[pf.Base].Code == d.Idx && !pf.Array && d.Size == byte(ref.BaseTypes[pf.Base].Size) && d.Idx <= 2
+			}
+			return d.Idx <= 2 && d.Size >= 1 && d.Num != 253 && d.Num != 254 && d.Num != 250
+		}
+		switch {
+		case def.HasDev && len(def.Dev) > 0 && len(def.Fields) < 255 && nativeOK(def.Dev[0]) && rng.Chance(2, 3):
+			d0 := def.Dev[0]
+			def.Dev = append([]ref.DevDef(nil), def.Dev[1:]...)
+			def.Fields = append(def.Fields, ref.FieldDef{Num: d0.Num, Size: d0.Size, Base: d0.Idx})
+		case len(def.Fields) > 1 && len(def.Dev) < 255 && def.Fields[len(def.Fields)-1].Num != 253:
+			f := def.Fields[len(def.Fields)-1]
+			def.Fields = def.Fields[:len(def.Fields)-1]
+			def.HasDev = true
+			def.Dev = append([]ref.DevDef{{Num: f.Num, Size: f.Size, Idx: f.Base}}, def.Dev...)
+		default:
+			def.Arch ^= 1
 		}
 	case 2:
 		def.Arch ^= 1
@@ -828,6 +861,30 @@ func (g *PlanGen) DefineSimilar(local byte) {
 	d := def
 	g.defs[local] = &d
 	g.last[local] = nil
+}
+
+// crossable lists, as developer field descriptions, the one-byte fields (enum, sint8, uint8) of
+// def's message that def does not define natively: number, size 1, index = base type code.
+func crossable(p *ref.Profile, def *ref.Record) (out []ref.DevDef) {
+	if !p.Known[def.Global] {
+		return nil
+	}
+	for _, pf := range p.ByMesg[def.Global] {
+		bt := ref.BaseTypes[pf.Base]
+		if bt.Code > 2 || pf.Array || pf.Kind != ref.KNative {
+			continue
+		}
+		have := false
+		for _, f := range def.Fields {
+			if f.Num == pf.Num {
+				have = true
+			}
+		}
+		if !have {
+			out = append(out, ref.DevDef{Num: pf.Num, Size: 1, Idx: bt.Code})
+		}
+	}
+	return out
 }
 
 // Data writes a data record on slot local (which must be defined).
